@@ -19,6 +19,7 @@ import (
 //   spec.mode          "fixed" (default) | "ordered"
 //   spec.kids[]        {apiVersion, kind, name, ns?, value, metaExtra?{...copied into metadata}}
 //   spec.statusExtra   copied verbatim into the returned status
+//   spec.rawStatus     returned as the status as-is; spec.nullStatus / spec.omitStatus: null / no status
 //   spec.finalize      "all" (default: drop everything at once) | "step" (one child per call)
 
 // KidSpec builds one spec.kids entry.
@@ -137,6 +138,15 @@ func Expand(req Obj, rootField, childrenField, responseChildrenField string) Obj
 		}
 	}
 	resp := Obj{"status": status}
+	if raw, ok := spec["rawStatus"]; ok {
+		resp["status"] = DeepCopyValue(raw) // exactly this status, whatever it is
+	}
+	if ns, _ := spec["nullStatus"].(bool); ns {
+		resp["status"] = nil
+	}
+	if om, _ := spec["omitStatus"].(bool); om {
+		delete(resp, "status")
+	}
 	children := []interface{}{}
 
 	if finalizing {
